@@ -280,3 +280,12 @@ func zzSplit(k int) int {
 }
 
 func vrtBackground() context.Context { return context.Background() }
+
+// exported aliases for harness packages outside package netty (they use the public API only)
+type ZZTransport = zzTransport
+
+func NewZZTransport() *ZZTransport { return newZZTransport() }
+func (t *zzTransport) Log() []byte  { return t.log }
+func (t *zzTransport) Closes() int  { return t.closes }
+func (t *zzTransport) Unflushed() int { return t.unflushed }
+func (t *zzTransport) SetReadData(b []byte, err error) { t.readData, t.readErr = b, err }
